@@ -32,7 +32,7 @@ def run(repo, R):
             if placement:
                 R.fail("G4", d.site(method), msg[:150], f"{msg}  [first case: {case}; {count} case(s)]",
                        where=where or f"{d.cls.module.relpath}:{d.cls.lookup(method).node.lineno}", expected=expected, found=found)
-            else:
+            elif rule != "A7":
                 other.append((kind, method, rule, msg, where))
     if other and not R.findings:
         kind, method, rule, msg, where = other[0]
@@ -130,6 +130,22 @@ def run(repo, R):
             # its positional parameters are the shells, in order, then keywords
             R.check(len(params) - (1 if recv else 0) >= nidx, "G1", f"{c.module.name[len('gbasis.'):]}.{c.name}", "signature takes the shells",
                     "kernel takes fewer shells than the assembly passes", where=g.where(), nontrivial=False)
+    # ---- the overlap screening decision is symmetric in its two shells (K(a,b) and K(b,a)^T are screened alike)
+    try:
+        from .c20 import screen_exprs
+        import sympy as sp
+        vl, vr, op, (ea, eb, A_, B_) = screen_exprs(repo)
+        t1, t2, t3, t4 = sp.symbols("t1 t2 t3 t4")
+        sw = lambda e: e.subs({ea: t1, eb: t2, A_: t3, B_: t4}).subs({t1: eb, t2: ea, t3: B_, t4: A_})
+        sym = sp.simplify(sw(vl) - vl) == 0 and sp.simplify(sw(vr) - vr) == 0
+        scr = repo.func("gbasis.integrals.overlap.is_integral_screened")
+        R.note_function(scr.qualname)
+        R.check(sym, "G2", scr.site, "screening decision symmetric under exchanging the two shells",
+                "whether an overlap block is screened depends on which of the two shells is listed first: the matrix loses its symmetry and "
+                "reordering shells changes more than the order of indices", where=scr.where(), expected="f(one, two) == f(two, one)",
+                found=f"{vl} {op} {vr}")
+    except AnalysisError:
+        pass  # the screening formula itself is C20's business
     R.floor("G1", n_k, 10, "kernel overrides")
     R.extra.update({"kernel_phase_classes": classes, "mirror_kinds": {k: sorted(v) for k, v in mirror.items()},
                     "shell_bound": {k: str(v) for k, v in bounds.items()}})
